@@ -337,6 +337,9 @@ stream_step(struct stream *stream)
 		return -1;
 	}
 
+	/* There is no previous clock to compare the first event with */
+	int first = (stream->cur_ev == NULL);
+
 	/* Only step the offset if we have loaded an event */
 	if (stream->cur_ev != NULL) {
 		/* Already checked when the event was loaded */
@@ -376,7 +379,7 @@ stream_step(struct stream *stream)
 	int64_t clock = stream_evclock(stream, stream->cur_ev);
 
 	/* Ensure the clock grows monotonically if unsorted flag not set */
-	if (stream->unsorted == 0) {
+	if (stream->unsorted == 0 && !first) {
 		if (clock < stream->lastclock) {
 			err("clock goes backwards %"PRIi64" -> %"PRIi64" in stream '%s' at offset %"PRIi64,
 					stream->lastclock,
